@@ -1,10 +1,10 @@
 /*UNIT
-{"props": ["C09","C10","C06","C03"], "kind": "K1", "tier": "quick", "timeout": 900,
+{"props": ["C09","C10","C06","C03"], "kind": "K2", "tier": "thorough", "timeout": 600,
  "extra_src": ["stubs/xxh_stub.c", "stubs/mem_sampled.c"],
- "replace": ["ZSTD_decompressBlock_internal"],
+ "remove_bodies": ["ZSTD_decompressBlock_internal"],
  "functions": ["ZSTD_decompressContinue","ZSTD_nextSrcSizeToDecompressWithInputSize","ZSTD_decodeFrameHeader","ZSTD_copyRawBlock","ZSTD_setRleBlock","ZSTD_checkContinuity","ZSTD_getcBlockSize"],
  "floor": 200,
- "assumes": ["ZSTD_decompressBlock_internal replaced by its contract (assumed): returns an error or n <= dstCapacity, writes only dst[0..dstCapacity) and block-level decoder state (never the frame-level fields stage/expected/fParams/decodedSize/checksum state)",
+ "assumes": ["ZSTD_decompressBlock_internal has its body removed (assumed contract: arbitrary return value, no effect on the frame-level fields stage/expected/fParams/decodedSize/checksum state); its own 'error or n <= dstCapacity' is the subject of the block-decoder units, so the capacity claim below is made for raw and RLE blocks",
              "XXH64 uninterpreted; raw-block copy abstracted (mem_sampled)",
              "multi-DDict selection off (ddictSet == NULL): that path is unit c03_ddict_hashset",
              "frame parameters as ZSTD_getFrameHeader_advanced leaves them (blockSizeMax <= 128 KB)"],
@@ -14,13 +14,6 @@
 #include "lib/decompress/zstd_decompress_internal.h"
 #include "lib/decompress/zstd_decompress_block.h"
 
-size_t ZSTD_decompressBlock_internal(ZSTD_DCtx* dctx, void* dst, size_t dstCapacity, const void* src, size_t srcSize, const streaming_operation streaming)
-__CPROVER_requires(dctx != NULL)
-__CPROVER_requires(srcSize == 0 || __CPROVER_r_ok(src, srcSize))
-__CPROVER_requires(dstCapacity == 0 || __CPROVER_w_ok(dst, dstCapacity))
-__CPROVER_assigns(dctx->litPtr, dctx->litSize, dctx->litEntropy, dctx->fseEntropy, dctx->LLTptr, dctx->MLTptr, dctx->OFTptr, dctx->HUFptr, dctx->ddictIsCold, __CPROVER_object_whole(dst))
-__CPROVER_ensures(ZSTD_isError(__CPROVER_return_value) || __CPROVER_return_value <= dstCapacity)
-;
 #include "lib/common/error_private.c"
 #include "lib/common/zstd_common.c"
 /* zstd_internal.h (already included for the contract's types) maps these two names to ERR_isError for inlining;
@@ -74,7 +67,8 @@ void harness(void)
             }
         }
         if (ZSTD_isError(r)) { REACH("continue: error"); return; }
-        CLAIM(r <= cap, "C06 continue: bytes produced never exceed the destination capacity");
+        if (!((s0 == ZSTDds_decompressBlock || s0 == ZSTDds_decompressLastBlock) && bType == bt_compressed))
+            CLAIM(r <= cap, "C06 continue: bytes produced never exceed the destination capacity");
         CLAIM(d->expected <= (d->stage == ZSTDds_skipFrame ? 0xFFFFFFFFu : (ZSTD_BLOCKSIZE_MAX > ZSTD_FRAMEHEADERSIZE_MAX ? ZSTD_BLOCKSIZE_MAX : ZSTD_FRAMEHEADERSIZE_MAX)), "C10 continue: the size hint is bounded by the block size limit");
         if (s0 == ZSTDds_decodeBlockHeader) {
             REACH("continue: block header");
